@@ -189,6 +189,17 @@ CLAIMED = {
             'AEAD bookkeeping, exact-real non-decreasing clock below 2^32 s. Outside: clocks that step backwards, float rounding, '
             'peers that hold the key and deviate from the code, reuse of one key across sessions.',
             'DESIGN.md §6 C03'),
+    'C12': ('All times and settings are symbolic reals. Through the real UdpClient.update and ServerClientConnection.update an idle '
+            'CONNECTED endpoint is proven to emit a datagram at a tick iff more than the configured keep-alive interval has elapsed and '
+            'to restart both send clocks; timedout(T) is proven equivalent to silence >= T and a genuine datagram to reset the '
+            'liveness clock; the client reports DROPPED exactly after more than 5 s of silence; an unanswered connect attempt ends '
+            'DISCONNECTED exactly after the configured timeout, with and without a callback, the callback fired once with False; '
+            'client setters called before, after or around connect() never raise and the values are observed at the thresholds of the '
+            'real emission / timeout paths; an LRA lemma gives keep-alive + tick + jitter < timeout => no timeout between arrivals.',
+            'The statement\'s "indefinitely" is the induction over emissions (paper step). Trusted: sx engine, exact-real clock, socket/'
+            'select stand-ins. The server-side sweep (silent client removed after connection_timeout, settings read by the loop) is '
+            'decided in C10. Outside: float rounding, wall-clock jumps.',
+            'DESIGN.md §6 C12'),
 }
 
 NOT_YET = 'check not built yet in this round (planned: see DESIGN.md §6); not claimed'
